@@ -1,12 +1,18 @@
 #!/usr/bin/env python3
 """tools/seedsweep.py [seed-dir ...]   (default: every directory under /verif/seeded)
 
-Applies each seeded defect to /repo (undone straight afterwards), runs the quick command of all 20
-checks, and records which checks report a violation: seeded/RESULTS.json and seeded/MATRIX.md."""
+Applies each seeded defect to a scratch worktree of /repo's HEAD (created under /tmp and removed at the
+end; /repo itself is never touched), runs the quick tier of all 20 checks against it, and records which
+checks report a violation: seeded/RESULTS.json and seeded/MATRIX.md."""
 import json, os, subprocess, sys
 here = os.path.dirname(os.path.dirname(os.path.abspath(__file__)))
 os.chdir(here)
 dirs = sys.argv[1:] or sorted(os.path.join("seeded", d) for d in os.listdir("seeded") if os.path.isdir(os.path.join("seeded", d)))
+scratch = "/tmp/seedsweep.%d" % os.getpid()
+subprocess.run(["git", "-C", "/repo", "worktree", "add", "-q", "--detach", scratch, "HEAD"], check=True)
+os.environ["MUTREPO"] = scratch
+import atexit
+atexit.register(lambda: subprocess.run(["git", "-C", "/repo", "worktree", "remove", "--force", scratch]))
 res = {}
 if os.path.exists("seeded/RESULTS.json"):
     res = json.load(open("seeded/RESULTS.json"))
